@@ -75,7 +75,7 @@ def solver_rules(r, idx):
 
 def d4_steps(ctx, idx):
     r = ctx.rule('D4.STEPS', 'each step of the solver equals the textbook Hungarian step (per-cell effect tables, '
-                 'full sweeps, no skipped adjustment)', floor=37)
+                 'full sweeps, no skipped adjustment, primes erased only in step 5)', floor=38)
     with r:
         steps_mod.check_steps(r, idx)
 
@@ -991,6 +991,9 @@ MUTANTS = [
     Mutant('pad-list-divided', MK, "                new_row += [pad_value] * (total_rows - row_len)\n", "                new_row += [pad_value] / (total_rows - row_len)\n", 'D3'),
     Mutant('step6-counter-cancels', MK, "                if self.row_covered[i]:\n                    self.C[i][j] += minval\n                    events += 1\n", "                if self.row_covered[i]:\n                    self.C[i][j] += minval\n", 'D4'),
     Mutant('step6-counter-correction-inverted', MK, "                if self.row_covered[i] and not self.col_covered[j]:\n                    events -= 2", "                if not (self.row_covered[i] and not self.col_covered[j]):\n                    events -= 2", 'D4'),
+    Mutant('step4-erases-primes-on-entry', MK, "        star_col = -1\n        while not done:\n            (row, col) = self.__find_a_zero(row, col)", "        star_col = -1\n        self.__erase_primes()\n        while not done:\n            (row, col) = self.__find_a_zero(row, col)", 'D4'),
+    Mutant('step6-erases-primes', MK, "        if (events == 0):\n            raise UnsolvableMatrix(\"Matrix cannot be solved!\")\n        return 4", "        if (events == 0):\n            raise UnsolvableMatrix(\"Matrix cannot be solved!\")\n        self.__erase_primes()\n        return 4", 'D4'),
+    Mutant('step5-erases-before-path', MK, "        done = False\n        while not done:\n            row = self.__find_star_in_col(path[count][1])", "        done = False\n        self.__erase_primes()\n        while not done:\n            row = self.__find_star_in_col(path[count][1])", 'D4'),
     Mutant('step1-subtracts-max', MK, "            minval = min(vals)", "            minval = max(vals)", 'D4'),
     Mutant('step1-subtracts-twice', MK, "                    self.C[i][j] -= minval\n        return 2", "                    self.C[i][j] -= 2 * minval\n        return 2", 'D4'),
     Mutant('step2-covers-not-cleared', MK, "        self.__clear_covers()\n        return 3\n\n    def __step3", "        return 3\n\n    def __step3", 'D4'),
@@ -1057,6 +1060,7 @@ BENIGN = [
            "        total_rows = len(matrix)\n        max_columns = max([0] + [len(row) for row in matrix])\n"),
     Benign('step6-counter-by-xor', MK, "                if self.row_covered[i]:\n                    self.C[i][j] += minval\n                    events += 1\n                if not self.col_covered[j]:\n                    self.C[i][j] -= minval\n                    events += 1\n                if self.row_covered[i] and not self.col_covered[j]:\n                    events -= 2 # change reversed, no real difference\n",
            "                if self.row_covered[i]:\n                    self.C[i][j] += minval\n                if not self.col_covered[j]:\n                    self.C[i][j] -= minval\n                if self.row_covered[i] != (not self.col_covered[j]):\n                    events += 1\n"),
+    Benign('step3-erases-nonexistent-primes', MK, "        n = self.n\n        count = 0\n        for i in range(n):", "        n = self.n\n        count = 0\n        self.__erase_primes()\n        for i in range(n):"),
     Benign('step6-by-cases', MK, "                if self.row_covered[i]:\n                    self.C[i][j] += minval\n                    events += 1\n                if not self.col_covered[j]:\n                    self.C[i][j] -= minval\n                    events += 1\n                if self.row_covered[i] and not self.col_covered[j]:\n                    events -= 2 # change reversed, no real difference\n",
            "                if self.row_covered[i] and self.col_covered[j]:\n                    self.C[i][j] += minval\n                    events += 1\n                elif not self.row_covered[i] and not self.col_covered[j]:\n                    self.C[i][j] -= minval\n                    events += 1\n"),
     Benign('find-smallest-de-morgan', MK, "                if (not self.row_covered[i]) and (not self.col_covered[j]):\n                    if self.C[i][j] is not DISALLOWED and minval >",
